@@ -473,6 +473,15 @@ pub fn exec(case: &Value, tag: &str) -> Value {
         for f in ["thumbs", "jwk", "sec", "pub"] { if o[f] != j[f] { oracle_fail.push(json!({"sig": format!("key-table:{}-not-reproducible", f), "alg": j["alg"]})); } }
         let want = if j["alg"] == "bls12381g1g2" { 2 } else { 1 };
         if o["thumbs"].as_array().map_or(0, |a| a.len()) != want { oracle_fail.push(json!({"sig": "thumbprints:wrong-count", "alg": j["alg"]})); }
+        // the INDEXED thumbprints, judged without `to_jwk_thumbprints`: a key is found under its own RFC 7638 thumbprint; a BLS
+        // G1G2 key under the thumbprints of its G1 and of its G2 key (the single-algorithm thumbprint function, per view)
+        let views: Vec<Option<KeyAlg>> = if j["alg"] == "bls12381g1g2" {
+            vec![Some(KeyAlg::Bls12_381(aries_askar::crypto::alg::BlsCurves::G1)), Some(KeyAlg::Bls12_381(aries_askar::crypto::alg::BlsCurves::G2))]
+        } else { vec![None] };
+        let want_thumbs: Vec<Value> = views.into_iter().filter_map(|a| k.to_jwk_thumbprint(a).ok()).map(Value::String).collect();
+        if !want_thumbs.is_empty() && o["thumbs"].as_array() != Some(&want_thumbs) {
+            oracle_fail.push(json!({"sig": format!("thumbprints:indexed-set-differs-from-per-view-thumbprints:{}", j["alg"].as_str().unwrap_or("?")), "want": want_thumbs, "got": o["thumbs"]}));
+        }
     }
     let (backend, path) = provision(case["file"].as_bool().unwrap_or(false), "default", "", tag);
     let store = Store::from(backend.clone());
